@@ -469,7 +469,7 @@ Qed.
 (* ---- host entry points ------------------------------------------------------------------- *)
 
 Definition clean (v : vm) : Prop :=
-  regs v = 0 /\ base v = 0 /\ stack v = [] /\ seqb v = 0%nat /\ strb v = 0%nat /\ placeholders v = 0%nat.
+  regs v = 0 /\ base v = 0 /\ stack v = [] /\ seqb v = 0%nat /\ strb v = 0%nat /\ placeholders v = [].
 
 Definition frames_clean (v : vm) : Prop := regs v = 0 /\ base v = 0 /\ stack v = [].
 
@@ -558,7 +558,7 @@ Proof.
     apply Z.leb_le in Hwf.
     set (b := mkFrame 0 required [] true).
     assert (Hp : 0 <= 0 + required) by lia.
-    pose proof (finish_clean c (mkVm (0 + required) 0 [b] 0 0 0 ex hr td) b Hfl eq_refl eq_refl eq_refl eq_refl
+    pose proof (finish_clean c (mkVm (0 + required) 0 [b] 0 0 [] ex hr td) b Hfl eq_refl eq_refl eq_refl eq_refl
                   Hp _ eq_refl) as (F1 & F2 & F3).
     unfold host, do_run. exact (conj F1 (conj F2 F3)).
   - simpl. unfold frames_clean. simpl. repeat split; auto; discriminate.
@@ -566,11 +566,11 @@ Proof.
     apply andb_true_iff in Hwf as [Hn Hr]. apply Z.leb_le in Hn. apply Z.leb_le in Hr.
     set (b := mkFrame 1 required [] true).
     assert (Hp : 0 <= 1 + required) by lia.
-    pose proof (finish_clean c (mkVm (1 + required) 1 [b] 0 0 0 ex hr td) b Hfl eq_refl eq_refl eq_refl eq_refl
+    pose proof (finish_clean c (mkVm (1 + required) 1 [b] 0 0 [] ex hr td) b Hfl eq_refl eq_refl eq_refl eq_refl
                   Hp _ eq_refl) as (F1 & F2 & F3).
     destruct (cleanup_ok _ F1 F2) as (G1 & G2 & G3).
     match goal with |- context [host ?h ?w] =>
-      assert (E : host h w = cleanup 0 (finish_activation (exec c (mkVm (1 + required) 1 [b] 0 0 0 ex hr td)) 0))
+      assert (E : host h w = cleanup 0 (finish_activation (exec c (mkVm (1 + required) 1 [b] 0 0 [] ex hr td)) 0))
         by reflexivity; rewrite E end.
     split; [exact G1|]. split; [exact G2|]. intros Hs. rewrite G3. exact (F3 Hs).
   - (* HCallPre *)
@@ -596,11 +596,11 @@ Proof.
     apply Z.leb_le in Hwf.
     set (b := mkFrame 2 required [] true).
     assert (Hp : 0 <= 2 + required) by lia.
-    pose proof (finish_clean c (mkVm (2 + required) 2 [b] 0 0 0 ex hr td) b Hfl eq_refl eq_refl eq_refl eq_refl
+    pose proof (finish_clean c (mkVm (2 + required) 2 [b] 0 0 [] ex hr td) b Hfl eq_refl eq_refl eq_refl eq_refl
                   Hp _ eq_refl) as (F1 & F2 & F3).
     destruct (cleanup_ok _ F1 F2) as (G1 & G2 & G3).
     match goal with |- context [host ?h ?w] =>
-      assert (E : host h w = cleanup 0 (finish_activation (exec c (mkVm (2 + required) 2 [b] 0 0 0 ex hr td)) 0))
+      assert (E : host h w = cleanup 0 (finish_activation (exec c (mkVm (2 + required) 2 [b] 0 0 [] ex hr td)) 0))
         by reflexivity; rewrite E end.
     split; [exact G1|]. split; [exact G2|]. intros Hs. rewrite G3. exact (F3 Hs).
   - (* HUnopPre *)
@@ -616,11 +616,11 @@ Proof.
     apply Z.leb_le in Hwf.
     set (b := mkFrame 3 required [] true).
     assert (Hp : 0 <= 3 + required) by lia.
-    pose proof (finish_clean c (mkVm (3 + required) 3 [b] 0 0 0 ex hr td) b Hfl eq_refl eq_refl eq_refl eq_refl
+    pose proof (finish_clean c (mkVm (3 + required) 3 [b] 0 0 [] ex hr td) b Hfl eq_refl eq_refl eq_refl eq_refl
                   Hp _ eq_refl) as (F1 & F2 & F3).
     destruct (cleanup_ok _ F1 F2) as (G1 & G2 & G3).
     match goal with |- context [host ?h ?w] =>
-      assert (E : host h w = cleanup 0 (finish_activation (exec c (mkVm (3 + required) 3 [b] 0 0 0 ex hr td)) 0))
+      assert (E : host h w = cleanup 0 (finish_activation (exec c (mkVm (3 + required) 3 [b] 0 0 [] ex hr td)) 0))
         by reflexivity; rewrite E end.
     split; [exact G1|]. split; [exact G2|]. intros Hs. rewrite G3. exact (F3 Hs).
   - (* HBinopPre *)
@@ -629,6 +629,7 @@ Proof.
   - (* HBinopPlain *)
     unfold host, do_op, with_register_cleanup, cleanup, do_op_inner, next_register, push_regs, truncate_registers, frames_clean;
       simpl; repeat split; auto; discriminate.
+  - simpl. unfold frames_clean. simpl. repeat split; auto; discriminate.
   - simpl. unfold frames_clean. simpl. repeat split; auto; discriminate.
 Qed.
 
